@@ -39,7 +39,7 @@ ASSUMPTIONS = [
 ]
 REQUIRED = {"all": ["figures", "saved_files", "getfig_returns", "phase_markers_checked", "uversky_markers_checked",
                     "multi_marker_figures", "labels_checked", "limits_below_one", "region_points_checked",
-                    "linear_bar_figures", "long_linear_plots", "net_negative_uversky_saves", "complexity_bar_figures", "numpy_coordinate_arguments", "coincident_markers"]}
+                    "linear_bar_figures", "long_linear_plots", "net_negative_uversky_saves", "complexity_bar_figures", "numpy_coordinate_arguments", "coincident_markers", "near_threshold_large_N_cases"]}
 NFIG = {"quick": 640, "thorough": 4000}
 NMAX = {"quick": 40, "thorough": 90}
 LIMS = [1, 1, 0.5, 0.8, 2]
@@ -125,6 +125,8 @@ def locate(pt, poly):
 def cases(tier, seed):
     for N in range(1, NMAX[tier] + 1):
         yield {"k": "regions", "N": N}
+    for N in list(range(NMAX[tier] + 1, 261 if tier == "quick" else 401)) + [300, 340, 360, 400, 660, 700, 1000]:
+        yield {"k": "regions", "N": N, "near": True}
     rng = gen.sub_rng(seed, ID)
     for i in range(NFIG[tier]):
         yield {"k": "fig", "o": rng.randrange(1 << 30), "i": i}
@@ -161,8 +163,13 @@ def judge_regions(case, rep, S):
         if lim[0] < 1 or lim[1] < 1:
             rep.cnt("limits_below_one")
     fresh_canvas()
-    for a in range(N + 1):
-        for b in range(N - a + 1):
+    if case.get("near"):
+        pairs = gen.near_threshold_compositions(N)
+        rep.cnt("near_threshold_large_N_cases")
+    else:
+        pairs = [(a, b) for a in range(N + 1) for b in range(N - a + 1)]
+    for a, b in pairs:
+        if True:
             pat = [1] * a + [-1] * b + [0] * (N - a - b)
             rng.shuffle(pat)
             region = SP(gen.spell_plain(pat)).get_phasePlotRegion()
